@@ -68,5 +68,11 @@ CHECKS = {
    text='Interpreter: for call (src=1) and exit from an arbitrary state (depth 0..8, any displacement, any Option<u16> frame size per function entry) z3 shows saved r6-r9/return address, r10 lowered by the frame size, r0-r9 untouched, target pc+1+imm without overflow, '
         'Err at depth 8, restore on exit; every opcode leaves the frames of suspended callers untouched; the pairing lemma gives r6-r10 restored across call/return. JIT: 7 call-graph programs compared with the interpreter for all inputs (x86sym).',
    note=INTERP_NOTE + ' JIT depth > 8 and custom frame sizes are outside the claim. Two known findings (frame pointer not lowered by the JIT).'),
+ 'C08': dict(level='translation_validation', engine='mirsym+x86sym+clifsym', design_ref='DESIGN.md 5/C08',
+   technique='interpreter: symbolic execution of the MIR CALL arm with the helper table and the helper as uninterpreted functions + z3; JIT: x86sym on the emitted call sequence (target, SysV argument registers, RSP alignment); Cranelift: clifsym on the emitted call; unknown ids: native compile results',
+   text='Interpreter (any u32 id, any registered set): exactly one invocation of the function registered under zext(imm) with (r1..r5), result in r0, r6-r10 unchanged, unregistered id => Err with no invocation. '
+        'JIT: call target = the registered address, (rdi,rsi,rdx,rcx,r8) = (r1..r5), RSP = 0 mod 16 at the call given the SysV entry condition - at top level, with two calls, and inside local functions of depth 1..3; same value as the interpreter. '
+        'Cranelift: callee identity via the FuncRef map, argument order, result to r0. Unknown id => Err from jit_compile and cranelift_compile.',
+   note=INTERP_NOTE + ' Trusted: SysV entry alignment, Cranelift ABI lowering. Compiled-code call sites are an enumerated family; arguments are symbolic.'),
 }
 NOT_APPLICABLE = {}
